@@ -302,12 +302,22 @@ func writerCase(w *mon.W, c *mon.Case) {
 		}
 	}
 	var pendingUser [][]byte // zero-copy buffers must stay valid until Flush
+	var guarded [][]byte     // what lies behind slices handed to WriteBinary: the caller's, not the connection's
 	crossed := false
 	c.Detail = func() interface{} {
 		return map[string]interface{}{"family": "writer", "initial_buffer": initBuf, "ops": opsLog}
 	}
 	compare := func(when string) bool {
 		w.Count("flush_comparisons", 1)
+		for _, g := range guarded {
+			for i, x := range g {
+				if x != 0xC5 {
+					c.Violate("caller-memory", "%s: byte %d behind a slice handed to WriteBinary (spare capacity of the caller's array, %d bytes) was overwritten with %#x", when, i, len(g), x)
+					return false
+				}
+			}
+		}
+		w.Count("guarded_spare_regions_checked", int64(len(guarded)))
 		got := fc.out.Bytes()
 		if !bytes.Equal(got, model) {
 			d := 0
@@ -339,7 +349,20 @@ func writerCase(w *mon.W, c *mon.Case) {
 			model = append(model, b...)
 			opsLog = append(opsLog, fmt.Sprintf("Malloc(%d)", sz))
 		case 2, 3:
-			b := make([]byte, sz)
+			// the caller's slice is sometimes a part of a larger array (a sub-slice of a blob):
+			// whatever lies behind it belongs to the caller and must stay as it is
+			spare := 0
+			if r.Chance(3) {
+				spare = r.Int(1, 100, 5000)
+			}
+			backing := make([]byte, sz+spare)
+			for i := sz; i < len(backing); i++ {
+				backing[i] = 0xC5
+			}
+			b := backing[:sz]
+			if spare > 0 {
+				guarded = append(guarded, backing[sz:])
+			}
 			fill(b)
 			n, err := cn.WriteBinary(b)
 			if err != nil || n != sz {
